@@ -68,6 +68,28 @@ func listMutants(property string) []mutant {
 			out = append(out, m)
 		}
 	}
+	// confirmed sub-agent mutations that a check is known to catch (seeded/<id>/caught.json,
+	// written by tools/run_seeded.py) are part of the corpus as must-fire variants
+	sdirs, _ := os.ReadDir(filepath.Join(verifDir(), "seeded"))
+	for _, e := range sdirs {
+		if !e.IsDir() {
+			continue
+		}
+		b, err := os.ReadFile(filepath.Join(verifDir(), "seeded", e.Name(), "caught.json"))
+		if err != nil {
+			continue
+		}
+		var cj struct {
+			Property string   `json:"property"`
+			Rules    []string `json:"rules"`
+		}
+		if json.Unmarshal(b, &cj) != nil || len(cj.Rules) == 0 {
+			continue
+		}
+		if property == "" || cj.Property == property {
+			out = append(out, mutant{Name: "seeded_" + e.Name(), Property: cj.Property, Expect: "fire", Rule: cj.Rules[0], What: "independent sub-agent mutation", Path: filepath.Join(verifDir(), "seeded", e.Name(), "patch.diff")})
+		}
+	}
 	sort.Slice(out, func(i, j int) bool { return out[i].Name < out[j].Name })
 	return out
 }
